@@ -55,7 +55,7 @@ def main(tier, replay=None):
         rep = json.load(open(replay))["replay"]
         jobs = [{"id": rep["prog"], "kind": "sierra_text", "text": rep["sierra"], "solver": "linear", "run": False}]
     else:
-        jobs = corpus_jobs(tier, want_mutants=(60 if quick else 400), e2e_limit=(150 if quick else None), run=False)
+        jobs = corpus_jobs(tier, want_mutants=(60 if quick else 160), e2e_limit=(150 if quick else None), run=False)
         for j in jobs:
             j["run_mutants"] = False
             j["export_rejected"] = True
@@ -89,8 +89,8 @@ def main(tier, replay=None):
     spec_rej = {}
     agree = 0
     if rejected and not replay:
-        step = max(1, n_rej // (500 if quick else 8000))
-        sample = rejected[::step]
+        step = max(1, n_rej // (500 if quick else 2500))
+        sample = [p for p in rejected[::step] if p["export"]["n"] <= 3000]
         res2, bad2 = annot_pass(sample, "rejected")
         chk.add_tlc(res2)
         agree = len(bad2)
